@@ -214,7 +214,7 @@ def run_slice(run: Run, sl: Slice, res) -> None:
                 run.known_hits[k] = run.known_hits.get(k, 0) + 1
             else:
                 oc.mismatches.append("deviation %s observed but not a listed finding" % k)
-        if oc.mismatches and len(run.violations) < 25:
+        if oc.mismatches and len(run.violations) < int(os.environ.get("VERIF_MAX_REPLAYS", "25")):
             path = write_replay(run.prop.id, {"property": run.prop.id, "slice": sl.name, "header": header,
                                               "vector": v, "observed": o, "mismatches": oc.mismatches})
             run.violations.append(("; ".join(oc.mismatches)[:400], path))
